@@ -126,70 +126,3 @@ Lemma acquire_loop_step : forall f net cached target count,
                             else acquire_loop f net cur target (S count)))
       end).
 Proof. reflexivity. Qed.
-
-(* ---------- escalate / deescalate ---------- *)
-
-Inductive esc_out :=
-| EPlain                      (* Channel.SendInput(p.Escalate) *)
-| EAuth                       (* SendInteractive: escalate command -> escalate prompt (visible), secondary secret ->
-                                 the level's pattern (hidden), completion patterns: the previous level's and the level's *)
-| EBadOut.
-
-Definition esc_env (auth secondary_empty : bool) : denv :=
-  mkEnvX (fun _ => false)
-         (fun a b => String.eqb a "d.AuthSecondary" && String.eqb b """""" && secondary_empty)
-         (fun _ => "")
-         (fun a => if String.eqb a "p.EscalateAuth" then Some auth else None)
-         (fun _ _ _ => None) (fun _ => O) (fun _ _ => None).
-
-Definition esc_run (auth secondary_empty : bool) : esc_out :=
-  match DecideLang.exec 20 (esc_env auth secondary_empty) escalate_code [] with
-  | Returned st "err" =>
-      match sget st "p", calls_of st, sget st "events" with
-      | Some "d.PrivilegeLevels[target]", ["d.Driver.Channel.SendInput(p.Escalate)"], None => EPlain
-      | Some "d.PrivilegeLevels[target]",
-        ["d.Driver.Channel.SendInteractive( events, func(o interface{}) error { a, ok := o.(*channel.OperationOptions) if ok { a.CompletePatterns = []*regexp.Regexp{ d.PrivilegeLevels[p.PreviousPriv].patternRe, p.patternRe, } return nil } return util.ErrIgnoredOption }, )"],
-        Some "[]*channel.SendInteractiveEvent{ { ChannelInput: p.Escalate, ChannelResponse: p.EscalatePrompt, HideInput: false, }, { ChannelInput: d.AuthSecondary, ChannelResponse: p.Pattern, HideInput: true, }, }" => EAuth
-      | _, _, _ => EBadOut
-      end
-  | _ => EBadOut
-  end.
-
-Definition deesc_ok : bool :=
-  match DecideLang.exec 20 (esc_env false false) deescalate_code [] with
-  | Returned st "err" =>
-      match sget st "p", calls_of st with
-      | Some "d.PrivilegeLevels[target]", ["d.Driver.Channel.SendInput(p.Deescalate)"] => true
-      | _, _ => false
-      end
-  | _ => false
-  end.
-
-Definition esc_table_ok : bool :=
-  forallb (fun a => forallb (fun e =>
-    match esc_run a e, (if negb a || e then EPlain else EAuth) with
-    | EPlain, EPlain | EAuth, EAuth => true
-    | _, _ => false
-    end) [true; false]) [true; false]
-  && deesc_ok
-  && tests_known escalate_code ["p.EscalateAuth"; "d.AuthSecondary == """""]
-  && tests_known deescalate_code [].
-
-(* THE TIE: plain send of the escalate command unless the level wants authentication AND a
-   secondary secret is set; then the two-event dialogue with exactly the model's events and
-   completion patterns; de-escalation is a plain send of the de-escalate command *)
-Theorem escalate_is_source : esc_table_ok = true.
-Proof. vm_compute. reflexivity. Qed.
-
-Lemma escalate_cases : forall net target p,
-  lookup_level (n_levels net) target = Some p ->
-  escalate net target
-  = (if negb (lv_escalate_auth p) || (match n_secondary net with []%list => true | _ => false end)
-    then send_input (n_chan net) (lv_escalate p) default_opts
-    else send_interactive (n_chan net)
-           [ mkEv (lv_escalate p) (Some (lv_escalate_prompt p)) false;
-             mkEv (n_secondary net) (Some (lv_pattern p)) true ]
-           (mkOpts default_strip_prompt default_eager default_exact []
-                   ((match lookup_level (n_levels net) (lv_previous p) with Some pl => [lv_pattern pl] | None => [] end) ++ [lv_pattern p])%list))
-  /\ deescalate net target = send_input (n_chan net) (lv_deescalate p) default_opts.
-Proof. intros net target p H. unfold escalate, deescalate. rewrite H. split; reflexivity. Qed.
